@@ -567,9 +567,18 @@ class AtLeastKInARow(_KInARow):
                                     backend_request: BackendRequest) -> None:
 
         # Request sublists for k+1 to allow us to determine the transition
+        var_lists = block.build_variable_lists(level, self.within_block)
         sublistss = self._build_variable_sublistss(block, level, self.k + 1)
         implications = []
-        for sublists in sublistss:
+        for var_list, sublists in zip(var_lists, sublistss):
+            if not sublists:
+                # The window has no more than k trials: a run of at least k
+                # is the whole window (if that is k trials long) or nothing.
+                if len(var_list) == self.k:
+                    implications.extend(Iff(var_list[0], v) for v in var_list[1:])
+                else:
+                    implications.extend(Not(v) for v in var_list)
+                continue
             # Starting corner case
             implications.append(If(sublists[0][0], And(sublists[0][1:-1])))
             for sublist in sublists:
@@ -638,10 +647,18 @@ class ExactlyKInARow(_KInARow):
                                  level: Tuple[Factor, Union[SimpleLevel, DerivedLevel]],
                                  backend_request: BackendRequest
                                  ) -> None:
+        var_lists = block.build_variable_lists(level, self.within_block)
         sublistss = self._build_variable_sublistss(block, level, self.k)
         implications = []
 
-        for sublists in sublistss:
+        for var_list, sublists in zip(var_lists, sublistss):
+            if not sublists:
+                # The window has fewer than k trials, so no run of k fits.
+                implications.extend(Not(v) for v in var_list)
+                (cnf, new_fresh) = block.cnf_fn(And(implications), backend_request.fresh)
+                backend_request.cnfs.append(cnf)
+                backend_request.fresh = new_fresh
+                continue
             # Handle the regular cases (1 => 2 ^ ... ^ n ^ ~n+1)
             trim = len(sublists) if self.k > 1 else len(sublists) - 1
             for idx, l in enumerate(sublists[:trim]):
